@@ -108,7 +108,7 @@ def specLoop (run : List Frame → SRes) (v : Nat) (vals : List String) (fl : Na
 
 /-- a statement list.  `disc`: the output is discarding; `ext`: an `extends` of the enclosing
     template has been executed; `cur`: the block definition being rendered -/
-def specItems (env : Env) (rootCtx : Frame) (cbs : SpecCbs) (D : Nat → List (List Item))
+def specItems (env : Env) (rootCtx : Cfg) (cbs : SpecCbs) (D : Nat → List (List Item))
     (cur : Option (Nat × Nat)) (disc ext : Bool) (outer : Nat) (ae : AE) : List Item → List Frame → SRes
   | [], fs => .ok ([], fs)
   | it :: rest, fs =>
@@ -169,6 +169,7 @@ def specItems (env : Env) (rootCtx : Frame) (cbs : SpecCbs) (D : Nat → List (L
           match cbs.list D none false false outer' ae body [[], [(arg, .str val)]] with
           | .error e => .error e
           | .ok (o, _) => cont (.ok (if disc then [] else o, fs1))
+    | .badTarget => .error [.invalidOperation]
     | .autoesc m body =>
       if body.any isExtends || body.any isAutoesc then .error [.unsupported]
       else cont (cbs.list D cur disc ext outer m body fs)
@@ -193,7 +194,7 @@ def hasExecExtends : List Item → Bool
   | _ :: rest => hasExecExtends rest
 
 /-- the layout of the last template of `chain` (most-derived first), then its parents -/
-def specChain (env : Env) (rootCtx : Frame) (cbs : SpecCbs) (chain : List Nat) (disc : Bool)
+def specChain (env : Env) (rootCtx : Cfg) (cbs : SpecCbs) (chain : List Nat) (disc : Bool)
     (outer : Nat) (ae : AE) (layout : List Item) (fs : List Frame) : SRes :=
   let D := defs env chain
   match splitExtends layout with
@@ -215,7 +216,7 @@ def specChain (env : Env) (rootCtx : Frame) (cbs : SpecCbs) (chain : List Nat) (
             | .ok (o3, fs3) => .ok (o ++ o2 ++ o3, fs3)
 
 /-- the spec with `fuel` nesting levels left -/
-def specAll (env : Env) (rootCtx : Frame) : Nat → SpecCbs
+def specAll (env : Env) (rootCtx : Cfg) : Nat → SpecCbs
   | 0 =>
     { body := fun _ _ _ _ _ _ _ => .error [.recursion],
       list := fun _ _ _ _ _ _ _ _ => .error [.recursion],
@@ -230,13 +231,21 @@ def specAll (env : Env) (rootCtx : Frame) : Nat → SpecCbs
       chain := fun chain disc outer ae layout fs =>
         specChain env rootCtx (specAll env rootCtx fuel) chain disc outer ae layout fs }
 
-def specRender (env : Env) (rootCtx : Frame) (fuel : Nat) (main : Nat) : Except Err (List String) :=
+def specRender (env : Env) (rootCtx : Cfg) (fuel : Nat) (main : Nat) : Except Err (List String) :=
   match env[main]? with
   | none => .error [.templateNotFound]
   | some T =>
     match (specAll env rootCtx fuel).chain [main] false 0 T.ae T.layout [[]] with
     | .error e => .error e
     | .ok (o, _) => .ok o
+
+/-- fuel that suffices for everything nested below depth `d` in an environment of `E`
+    templates (see `MJ.C06.rendering_terminates`) -/
+def W (E d : Nat) : Nat := (LIMIT + 1 - d) * (E + 3)
+
+/-- the fuel the line driver runs with: with this much the model's fuel is provably never the
+    reason a render stops -/
+def renderFuel (env : Env) : Nat := W env.length 2 + env.length + 2
 
 /-! ## the fragment for which driver = spec is proved -/
 
